@@ -353,7 +353,7 @@ def run(ctx: Ctx):
             cases.append({"kind": "fixed", "expr": rp["formula"], "box": rp["box"], "n": len(rp["box"]), "expect": None, "known": known})
         from harness import cmp9 as C
 
-        n_gen = 800 if ctx.thorough else 48
+        n_gen = 800 if ctx.thorough else 40
         for i in range(n_gen):
             stream = C.STREAMS[i % len(C.STREAMS)]
             cases.append({"kind": "gen", "stream": stream, "n": rng.choice([1, 2, 2, 3]),
